@@ -428,6 +428,13 @@ def register(reg):
                               c.x0 == bx[0], c.y0 == bx[1], c.x1 == bx[2], c.y1 == bx[3], positive(a))),
                 ('lines-done', forall('int', lambda m: Implies(And(m >= 0, m < c.j), er[m] == line_meets(
                     v, o1[s0 + m], o1[s0 + m + 1], bx)))),
+                # the same over raw positions q in the line-offsets array (trigger O[q]): the instance for the witness of
+                # MLINE_MEETS
+                ('lines-done-by-position', forall('int', lambda q: Implies(
+                    And(q >= o1.off + s0, q < o1.off + s0 + c.j),
+                    er[q - o1.off - s0] == LINE_MEETS(v.A, v.off + SInt(z3.Select(o1.A, q.z())), v.off + SInt(z3.Select(o1.A, (q + 1).z())),
+                                                      *[rl(t).val for t in bx])),
+                    patterns=lambda q: [z3.Select(o1.A, q.z())])),
                 ('lines-todo', forall('int', lambda m: Implies(And(m >= c.j, m < c.num_lines), Not(er[m]))))]
 
     def ml_hints(c):
@@ -436,7 +443,7 @@ def register(reg):
         meets = mline_meets(a.flat_values, a.offsets1, a.start_offsets0[c.i], a.stop_offsets0[c.i], obox(a))
         use = ['inv:lines-range', 'inv:lines-done', 'inv:lines-todo', 'inv:range']
         return [('any-implies-meets', Implies(res[c.i], meets), use),
-                ('meets-implies-any', Implies(meets, res[c.i]), use),
+                ('meets-implies-any', Implies(meets, res[c.i]), ['inv:lines-range', 'inv:lines-done-by-position', 'inv:range']),
                 ('this-element', ml_cell(a, res, c.i), ['inv:range', 'hint:any-implies-meets', 'hint:meets-implies-any'])]
 
     reg.add(Contract(INT + '::multilines_intersect_bounds',
